@@ -9,13 +9,14 @@ GRAMMAR (all numbers decimal, all byte strings lower-case hex, the empty byte st
 
   <T>  ::= ε | <tbl>("," <tbl>)*                 table directories sstable_%015d, any order (sorted by number here)
   <tbl>::= <gen> ":" <dir>
-  <dir>::= "partial"                             NewSSTableReader FAILS on it and meta.pb.bin is missing or EMPTY
+  <dir>::= "partial"                             meta.pb.bin EXISTS AND IS EMPTY (whatever the other files look like), or
+                                                 meta.pb.bin is missing and NewSSTableReader FAILS on the directory
          | "partialmeta"                         NewSSTableReader FAILS on it although meta.pb.bin is non-empty
-         | <cells>                               NewSSTableReader LOADS it; <cells> = what Get returns for the keys of
-                                                 its index, any order.  NOTE: the reader does not need the metadata: a
-                                                 directory whose index.rio and data.rio have headers loads as a
-                                                 "version 0" table while meta.pb.bin is still empty (showing nothing,
-                                                 or mis-parsed values) — that is <cells>, not "partial"
+         | <cells>                               meta.pb.bin is non-empty or missing, and NewSSTableReader LOADS it;
+                                                 <cells> = what Get returns for the keys of its index, any order.
+                                                 NOTE: the reader does not need a metadata FILE: a directory without
+                                                 meta.pb.bin whose index.rio and data.rio have headers loads as a
+                                                 "version 0" table (empty, or with mis-parsed values): that is <cells>
   <cells> ::= ε | <kv>(";" <kv>)*                (ε = a complete table without records)
   <kv> ::= <hexkey> "=" <val>                    <val> ::= "-" (tombstone / nil) | "." (empty value) | <hex>
   <W>  ::= ε | <file>("," <file>)*               files wal/%06d.wal
@@ -31,9 +32,11 @@ GRAMMAR (all numbers decimal, all byte strings lower-case hex, the empty byte st
   <K>  ::= ε | <hexkey>("," <hexkey>)*           probe keys ("." may be used for the empty key in <K>)
   <S>  ::= per step "<drain>" | "<drain>t"       asynchronous WAL only: records leaving the buffer during the step,
                                                  "t" = plus a piece of the next one; missing entries = "0"
-  <J>  ::= <cells>("|" <cells>)*                 what EVERY table written by a flush of this session is seen to load as
-                                                 before its metadata is written (keys not in the flushed store are
-                                                 dropped); "junk=|" = [empty table]; default: no such states
+  <J>  ::= <gen> ":" <cells> ("|" <gen> ":" <cells>)*
+                                                 what the directory of table <gen> shows when a RemoveAll has unlinked
+                                                 its meta.pb.bin first and index.rio / data.rio still load (for an
+                                                 unfinished table keys the log does not bind are dropped); entries
+                                                 without "<gen>:" are accepted and ignored; default: no such states
 
 ANSWERS
   fs.recover   → "ok ok=<0|1> tables=<gen;gen;…> vals=<v,v,…> wal=<num;num;…> events=<n>"
@@ -44,8 +47,8 @@ ANSWERS
   fs.recimages → "ok <img> <img> …": the disk after 0,1,2,… calls of the recovery; <img> = tables=<T>|wal=<W>|comps=<C>|waldir=<b>
                    in exactly the input syntax, canonical order
   fs.session   → "ok <n1>:<img>… " one group per step: "#<events of the step>" followed by the image after each
-                   event of that step (the image before the first step is the empty disk); a table that loads but
-                   has no metadata yet is printed as <gen>:~<cells>
+                   event of that step (the image before the first step is the empty disk); a table that loads
+                   WITHOUT a metadata file is printed as <gen>:~<cells>
 -/
 import SST.Spec.FS
 import SST.Drv.DB
@@ -164,12 +167,30 @@ def imagesU (d : Disk) (unf : List Nat) : List Ev → List String
     let unf' := match e with
       | .tblLoadable g _ => g :: unf
       | .tblComplete g _ => unf.filter (· != g)
+      | .tblMetaCreate g => unf.filter (· != g)
+      | .tblUnlinkPart g _ => unf.filter (· != g)
+      | .tblRmdir g => unf.filter (· != g)
       | _ => unf
     diskStr (applyEv d e) unf' :: imagesU (applyEv d e) unf' es
 
 def optBytesStr : Option Bytes → String
   | none => "-"
   | some v => toHex v
+
+/-- `junk=<gen>:<cells>|…`; entries without a table number (an older form of this argument) are ignored -/
+def parseJunkEntry (e : String) : Option (Option (Nat × Layer)) :=
+  match e.splitOn ":" with
+  | [g, c] => do
+    let g ← g.toNat?
+    let c ← parseCells c
+    pure (some (g, c))
+  | [c] => (parseCells c).map fun _ => none
+  | _ => none
+
+def parseJunk (a : Args) : Option (List (Nat × Layer)) :=
+  match a.get? "junk" with
+  | none => some []
+  | some j => ((j.splitOn "|").mapM parseJunkEntry).map fun (l : List (Option (Nat × Layer))) => l.filterMap id
 
 /-- `fs.recover` -/
 def fsRecover (a : Args) : String :=
@@ -193,7 +214,7 @@ def imagesOf (d : Disk) : List Ev → List Disk
 def fsRecImages (a : Args) : String :=
   match parseDisk a with
   | some d =>
-    match (match a.get? "junk" with | none => some [] | some j => (j.splitOn "|").mapM parseCells) with
+    match parseJunk a with
     | some junk => "ok " ++ String.intercalate " " (diskStr d :: imagesU d [] (recoverEvents d junk))
     | none => "bad-op"
   | none => "bad-op"
@@ -201,7 +222,7 @@ def fsRecImages (a : Args) : String :=
 def parseSched (s : String) : Option (Nat × Bool) :=
   if s.endsWith "t" then (s.dropEnd 1).toString.toNat?.map (·, true) else s.toNat?.map (·, false)
 
-def sessionLoop (async : Bool) (junk : List Layer) : Disk → Vol → List (Step × Nat × Bool) → List String
+def sessionLoop (async : Bool) (junk : List (Nat × Layer)) : Disk → Vol → List (Step × Nat × Bool) → List String
   | _, _, [] => []
   | d, v, (st, dr, tn) :: rest =>
     let (es, v') := fsStep async d v { st := st, drain := dr, torn := tn, junk := junk }
@@ -210,9 +231,7 @@ def sessionLoop (async : Bool) (junk : List Layer) : Disk → Vol → List (Step
 /-- `fs.session` -/
 def fsSession (a : Args) : String :=
   let async := a.getD "async" "0" == "1"
-  let junk? : Option (List Layer) := match a.get? "junk" with
-    | none => some []
-    | some j => (j.splitOn "|").mapM parseCells
+  let junk? := parseJunk a
   match (splitList (a.getD "steps" "")).mapM parseStep, (splitList (a.getD "sched" "")).mapM parseSched, junk? with
   | some steps, some sched, some junk =>
     if steps.any Option.isNone then "bad-op" else
